@@ -28,11 +28,12 @@ Data(d) == IF d = 0 THEN { Atom(x) : x \in Atoms } \cup { [t |-> "list", es |-> 
 (* "args" every atom is followed by an absent optional list (VALUE -> WORD [ARGS] | LIST | MAP), so that the    *)
 (* optional container is absent at the end of list items, map values and the whole text;                      *)
 (* "decls" a bracket-less ';' list of declarations  w = VALUE  with VALUE as in "args" (the absent optional    *)
-(* list ends a chain of productions)                                                                           *)
+(* list ends a chain of productions); "baremap" a bracket-less map at the top (no pairs = the empty text = {})  *)
 Opts == { [top |-> tp, delim |-> dl, afd |-> af, nullable |-> nu, mapafd |-> ma] :
-             tp \in {"value", "optional", "bare", "args", "decls"}, dl \in BOOLEAN, af \in {"default", "yes", "no"}, nu \in BOOLEAN, ma \in BOOLEAN }
+             tp \in {"value", "optional", "bare", "args", "decls", "baremap"}, dl \in BOOLEAN, af \in {"default", "yes", "no"}, nu \in BOOLEAN, ma \in BOOLEAN }
 OptsOK(o) == /\ (o.afd = "yes" => o.delim) /\ (o.nullable => o.delim)
              /\ (o.top = "bare" => o.afd # "yes" /\ ~o.nullable)
+             /\ (o.top = "baremap" => o.afd = "default" /\ ~o.nullable)
 FinalAllowed(o) == o.delim /\ o.afd # "no"
 
 RECURSIVE HasNone(_)
@@ -82,6 +83,7 @@ Choose == /\ phase = "opt" /\ phase' = "done"
                /\ Fits(d, opt) /\ ~(f /\ b)
                /\ (b => ~opt.nullable)       \* with nullable items "[a,]" is a list with an empty last item
                /\ (opt.top \in {"bare", "decls"} => d.t = "list")
+               /\ (opt.top = "baremap" => d.t = "map")
                /\ datum' = d /\ fin' = f /\ bad' = b
           /\ UNCHANGED opt
 (* a bad rendering really contains a forbidden final delimiter somewhere *)
